@@ -103,6 +103,7 @@ type Macro struct {
 	Name   string
 	Params []Binder
 	Body   *SExpr
+	Opaque bool // expanded into a state-specific uninterpreted predicate over its scalar parameters
 }
 
 type HStep struct {
@@ -232,12 +233,13 @@ var (
 	reExternHdr  = regexp.MustCompile(`^extern\s+([\w.*()]+)\s*\(([^)]*)\)\s*(.*)$`)
 	reLoopHdr    = regexp.MustCompile(`^loop\s+(\d+)\s*:\s*(.*)$`)
 	reLabel      = regexp.MustCompile(`^\[([\w.-]+)\]\s*(.*)$`)
-	reMacro      = regexp.MustCompile(`^(?:pred|pure)\s+(\w+)\s*\(([^)]*)\)\s*=\s*(.*)$`)
+	reMacro      = regexp.MustCompile(`^(?:pred|pure)\s+(opaque\s+)?(\w+)\s*\(([^)]*)\)\s*=\s*(.*)$`)
 	reGhostFun   = regexp.MustCompile(`^ghostfun\s+(opaque\s+)?(\w+)\s*\(([^)]*)\)\s*([\w*][\w.*]*)\s*=\s*(.*)$`)
 	reGhostOut   = regexp.MustCompile(`^ghostout\s+(\w+)\s*\(([^)]*)\)\s*(\w[\w.*]*)\s*$`)
 	reWitness    = regexp.MustCompile(`^witness\s+(?:return\s+(\d+)\s*:\s*)?(\w+)\s*\(([^)]*)\)\s*=\s*(.*)$`)
 	reLemma      = regexp.MustCompile(`^lemma\s+(\w+)\s*\(([^)]*)\)\s*(?:by\s+induction\s+on\s+(\w+)\s*)?:\s*(.*)$`)
 	reGhostVar   = regexp.MustCompile(`^ghost\s+(\w+)\s+([\w.*]+)\s*=\s*(.*?)(?:\s*;\s*at_end\s+(.*))?$`)
+	_            = 0
 	reHarness    = regexp.MustCompile(`^harness\s+(\w+)\s*\(([^)]*)\)\s*$`)
 	reGhostField = regexp.MustCompile(`^ghostfield\s+(\w+)\s+(\w+)\s*$`)
 	keywords     = []string{"func ", "extern ", "requires ", "ensures ", "assigns ", "loop ", "pred ", "pure ", "ghostfun ", "ghostout ", "witness ", "lemma ", "harness ", "call ", "let ", "assume ", "opt ", "prop ", "ghostfield ", "end"}
@@ -361,11 +363,11 @@ func (p *Program) parseContractLines(raw []string, file string) error {
 			if m == nil {
 				return fmt.Errorf("%s: bad macro %q", file, l)
 			}
-			e, err := ParseSpec(m[3])
+			e, err := ParseSpec(m[4])
 			if err != nil {
 				return fmt.Errorf("%s: %v", file, err)
 			}
-			p.Macros[m[1]] = &Macro{Name: m[1], Params: parseBinders(m[2]), Body: e}
+			p.Macros[m[2]] = &Macro{Name: m[2], Params: parseBinders(m[3]), Body: e, Opaque: m[1] != ""}
 		case strings.HasPrefix(l, "ghostfield "):
 			m := reGhostField.FindStringSubmatch(l)
 			if m == nil {
